@@ -54,7 +54,9 @@ def main():
             ),
             level_note=man.get("level_note", "trusted: z3 5.1.0, CPython, numpy indexing under the shim, shim element semantics (validated per run "
                                              "against real numpy on pinned inputs), hand-written z3 oracles; bounds and stubs are listed in the evidence file"),
-            technique=man.get("technique", "solver-based bounded checking: path-forking symbolic execution of the real Python code over z3"),
+            technique=man.get("technique", "solver-based bounded checking: path-forking symbolic execution of the real Python code over z3 (obligations per path discharged by the solver, "
+                                           "counterexamples replayed on the unpatched code); instances whose inputs the code forces to concrete values - call-history and aliasing "
+                                           "sequences, real-file round trips, hashing - are concrete evaluations and are flagged `degenerate` in the evidence"),
         )
         checks.append(entry)
     manifest = dict(
